@@ -483,7 +483,9 @@ def _collect_update_commands(
             for propkey in set(propkey_to_col).intersection(
                 state.committed_state
             ):
-                value = state_dict[propkey]
+                # an attribute that was deleted (``del obj.attr``) has history
+                # but no current value
+                value = state_dict.get(propkey)
                 col = propkey_to_col[propkey]
 
                 if hasattr(value, "__clause_element__") or isinstance(
